@@ -331,6 +331,19 @@ func c12Main(r *run.Runner) {
 			}
 		}
 	})
+	// one rune of every class that a scanner may classify with a Unicode table instead of an ASCII test (digits, letters,
+	// letter-numbers, marks, spaces, format characters), where a token starts or continues
+	odd2 := []string{"５", "٣", "߃", "०", "𝟗", "²", "½", "Ⅷ", "〇", "é", "λ", "中", "ａ", "Ａ", "ǅ", "ʰ", "ª", "\u0301", "\u20dd", "\u00a0", "\u1680", "\u2003", "\u2028", "\u2029", "\u3000", "\u0085", "\ufeff", "\u200b", "\u200d", "\u00ad", "＿", "＄", "‿", "．", "；", "｜", "＇", "／", "\U000e0001", "\ufffd"}
+	r.Sweep("rune-classes", int64(len(odd2)), func(w *run.Worker, item int64) {
+		u := odd2[item]
+		for _, shape := range []string{u, u + u, "1" + u, "1" + u + "2", "a" + u, "a" + u + "b", "0x" + u, "0x1" + u + "f", "1e" + u, "1e+" + u, "1." + u, "." + u, u + "1", u + "a", "$" + u, "_" + u, "-" + u, "/" + u, "//" + u + "\n" + u, "'" + u, "`" + u + "`" + u, u + " " + u, u + ";" + u, u + "|" + u} {
+			for _, c := range oddCtx {
+				totalOne(w, strings.Replace(c, "%s", shape, 1))
+			}
+			totalOne(w, shape+"T | take 1")
+			totalOne(w, "T | take 1"+shape)
+		}
+	})
 	// unnamed columns are named after their source text: expressions that contain comment-like or quote-like text inside
 	// string literals and quoted names, laid out over one or several lines (LF / CRLF / indentation / real comments)
 	unnamed := [][]string{
